@@ -41,30 +41,14 @@ def main():
     res = {"property": pid, "seed_id": sid, "what": meta.get("what"), "needs": meta.get("needs"),
            "repo_head": sh("git -C /repo rev-parse --short HEAD")[1].strip(), "ran": []}
     try:
-        # place the demonstration
         demo_cmd = meta.get("demo_cmd", "")
-        placed = []
-        for fn in os.listdir(mdir):
-            if fn.endswith("_test.go") or fn == "demo":
-                src = os.path.join(mdir, fn)
-                first = open(src).readline() if os.path.isfile(src) else ""
-                m = re.search(r"(?:place|put|copy)[^/]*?((?:[\w.-]+/)*[\w.-]*)", first)
-                dest_dir = meta.get("demo_dir")
-                if dest_dir is None:
-                    tp = meta.get("touched_packages") or ["."]
-                    dest_dir = meta.get("demo_package", tp[0])
-                dest_dir = dest_dir.replace("github.com/feichai0017/NoKV", ".").lstrip("./") or "."
-                dst = os.path.join(wt, dest_dir, fn)
-                if os.path.isdir(src):
-                    shutil.copytree(src, dst)
-                else:
-                    os.makedirs(os.path.dirname(dst), exist_ok=True)
-                    shutil.copy(src, dst)
-                placed.append(os.path.relpath(dst, wt))
-        res["demo_placed"] = placed
-        res["demo_cmd"] = demo_cmd
-        rc0, out0 = sh("timeout 1200 " + demo_cmd, cwd=wt)
-        res["ran"].append({"step": "demo without patch", "cmd": demo_cmd, "rc": rc0, "tail": out0[-600:]})
+        mabs = os.path.abspath(mdir)
+        run_demo = demo_cmd.replace("<repo>", wt).replace("<worktree>", wt)
+        run_demo = re.sub(r"\bcp (-r )?(?!/)", lambda m: "cp %s%s/" % (m.group(1) or "", mabs), run_demo)
+        res["demo_cmd"] = run_demo
+        rc0, out0 = sh("timeout 1200 bash -c %s" % json.dumps(run_demo), cwd=wt)
+        sh("git clean -fdq", cwd=wt)
+        res["ran"].append({"step": "demo without patch", "rc": rc0, "tail": out0[-600:]})
         rc, out = sh("git apply %s" % os.path.abspath(os.path.join(mdir, "patch.diff")), cwd=wt)
         res["ran"].append({"step": "apply", "rc": rc, "tail": out[-300:]})
         if rc != 0:
@@ -79,20 +63,14 @@ def main():
                 pkg = pkg.replace("github.com/feichai0017/NoKV", ".")
                 if not pkg.startswith("."):
                     pkg = "./" + pkg
-                # the demonstration test lives in the package: exclude it by name
-                skip = "|".join(re.findall(r"func (Test\w+)", "".join(
-                    open(os.path.join(mdir, f)).read() for f in os.listdir(mdir) if f.endswith("_test.go"))))
-                cmd = "timeout 1500 go test -count=1 %s %s" % (("-skip '%s'" % skip) if skip else "", pkg)
+                cmd = "timeout 1500 go test -count=1 %s" % pkg
                 rc, out = sh(cmd, cwd=wt, timeout=1600)
                 res["ran"].append({"step": "existing tests", "cmd": cmd, "rc": rc, "tail": out[-400:]})
                 tests_ok = tests_ok and rc == 0
-        rc1, out1 = sh("timeout 1200 " + demo_cmd, cwd=wt)
-        res["ran"].append({"step": "demo with patch", "cmd": demo_cmd, "rc": rc1, "tail": out1[-600:]})
+        rc1, out1 = sh("timeout 1200 bash -c %s" % json.dumps(run_demo), cwd=wt)
+        sh("git clean -fdq", cwd=wt)
+        res["ran"].append({"step": "demo with patch", "rc": rc1, "tail": out1[-600:]})
         res["confirmed"] = bool(builds and tests_ok and rc0 == 0 and rc1 != 0)
-        # remove the demonstration so that it does not affect the check
-        for p in placed:
-            fp = os.path.join(wt, p)
-            shutil.rmtree(fp) if os.path.isdir(fp) else os.remove(fp)
         caught = {}
         for c in [pid] + [x for x in extra if x != pid]:
             t0 = time.time()
